@@ -371,6 +371,7 @@ inductive Leaf (α : Type) where
   | str (op : Cmp) (s : String)  -- path op "x"
   | nul                          -- path == None
   | cls (path : String)          -- path == SomeClass
+  | any                          -- the bare path used as a predicate: the attribute exists
   deriving Inhabited
 
 inductive Pred (α : Type) where
@@ -386,6 +387,7 @@ def leafHolds {α} (ops : NumOps α) : Leaf α → Obj α → Bool
   | .str op s, .str t => cmpStr op t s
   | .nul, .nul => true
   | .cls p, .node cls _ => cls == p
+  | .any, _ => true
   | _, _ => false
 
 /-- the predicate evaluated directly on the stored objects -/
@@ -403,6 +405,7 @@ def leafQ {α} : Leaf α → Q α
   | .str op s => .strv op s
   | .nul => .isNone
   | .cls p => .type p
+  | .any => .and []   -- `NamedQuery(name, None)`: no other condition (an empty conjunction)
 
 /-- `aggregator.model.a.b.c op const` = `Named(a, Named(b, Named(c, cond)))` -/
 def pathQ {α} (names : List String) (leaf : Leaf α) : Q α :=
